@@ -451,6 +451,11 @@ where
             && change.orchard() <= 1
             && change.sapling() == 0
             && change.transparent() == 0
+            // A ZIP 320 ephemeral output is reported among the proposed change, so the final
+            // manifest below and `Step::is_canonical_crossing` both count it as transparent
+            // change and pad the Ironwood bundle. The fee must be costed on the same verdict,
+            // or it is one marginal fee short of the transaction that is actually built.
+            && !ephemeral_balance.is_some_and(|b| b.is_output())
             && match ironwood.outputs() {
                 [output] => constants.is_canonical_denomination(output.value()),
                 _ => false,
@@ -1064,6 +1069,7 @@ pub(crate) fn check_for_uneconomic_inputs<NoteRefT: Clone, E>(
                 let canonical = o_req_inputs + _o_extra == 1
                     && i_req_inputs + _i_extra == 0
                     && change.ironwood == 0
+                    && !ephemeral_balance.is_some_and(|b| b.is_output())
                     && match ironwood.outputs() {
                         [output] => constants.is_canonical_denomination(output.value()),
                         _ => false,
